@@ -455,6 +455,34 @@ Fixpoint nodup_str (l : list string) : bool :=
   match l with [] => true | x :: r => negb (mem_str x r) && nodup_str r end.
 Definition unique_paths (h : heap) : bool := nodup_str (alias_paths h).
 
+(* ---- the static walk: what resolve_target computes on a direct heap, as a pure function of target paths, flags and
+   which aliases are resolved (Proofs/C06_fixpoint.v: equal to the outcome of resolve_target, and stable under further
+   resolutions).  [vis]: the aliases this walk already went through (the real code marks them passed-through). ---- *)
+Fixpoint mem_nat (x : nat) (l : list nat) : bool :=
+  match l with [] => false | y :: r => Nat.eqb x y || mem_nat x r end.
+
+Fixpoint walk (coll : list (string * nat)) (n : nat) (h : heap) (i : nat) (vis : list nat) : res unit :=
+  match n with
+  | 0 => Err EFuel
+  | S n' =>
+      match nth_error h i with
+      | Some (NAlias p tp None pa _) =>
+          if pa || mem_nat i vis then Err ECyc
+          else match static_get coll h tp with
+               | None => Err EBad
+               | Some None => Err (EARE p)
+               | Some (Some j) =>
+                   if Nat.eqb j i then Err ECyc
+                   else match nth_error h j with
+                        | None => Err EBad
+                        | Some (NAlias _ _ None _ _) => walk coll n' h j (i :: vis)
+                        | Some _ => Ok tt
+                        end
+               end
+      | _ => Err EBad
+      end
+  end.
+
 (* ---- s-expression interface ---- *)
 Definition dec_ref (s : sexp) : option (option ref) :=
   match s with
@@ -530,23 +558,89 @@ Fixpoint deref_trace (coll : list (string * nat)) (h : heap) (ids : list nat) : 
       (h2, SList [out; enc_state h1] :: outs)
   end.
 
-Fixpoint run_ops (coll : list (string * nat)) (h : heap) (ops : list sexp) : list sexp :=
+(* ---- why a resolved alias does not dereference (known-gap classifiers, computed on the heap the operations left) ----
+   [ident_walk]: the stored chain followed by node identity instead of by path; returns the object reached (None: an
+   unresolved link, or a genuine cycle of stored links exhausting the fuel) and the real alias nodes met. *)
+Fixpoint ident_walk (l : nat) (h : heap) (r : ref) (met : list nat) : option nat * list nat :=
+  match l with
+  | 0 => (None, met)
+  | S l' =>
+      match r with
+      | RVirt _ i => ident_walk l' h (RReal i) met
+      | RReal i =>
+          match nth_error h i with
+          | Some (NObj _ _ _) => (Some i, met)
+          | Some (NAlias _ _ (Some t) _ _) => ident_walk l' h t (i :: met)
+          | _ => (None, i :: met)
+          end
+      end
+  end.
+
+Definition stored_in (h0 : heap) (k : nat) : bool :=
+  match nth_error h0 k with Some (NAlias _ _ (Some _) _ _) => true | _ => false end.
+
+(* "unlinked" | "complete" (dereferences through stored links to an object) |
+   "false-cycle": every stored link leads, node by node, to an object, yet two distinct aliases of the chain have the
+                  same path, which final_target takes for a cycle (KnownGap_duplicate_path, C06-F9) |
+   "preresolved": the chain runs through a link that was already stored on [h0], before any resolution
+                  (KnownGap_preresolved, C06-F3) |
+   "partial": none of these - resolve_target itself left a chain that does not reach an object *)
+Definition link_verdict (h0 h : heap) (i : nat) : string :=
+  match nth_error h i with
+  | Some (NAlias p tp (Some t) pa w) =>
+      if complete_at (fuelL h) h (NAlias p tp (Some t) pa w) then "complete"
+      else let '(o, met) := ident_walk (2 * List.length h + 2) h (RReal i) [] in
+           match o with
+           | Some _ => "false-cycle"
+           | None => if existsb (stored_in h0) met then "preresolved" else "partial"
+           end
+  | _ => "unlinked"
+  end.
+
+Fixpoint run_ops (coll : list (string * nat)) (h0 h : heap) (ops : list sexp) : list sexp :=
   match ops with
   | [] => []
+  | SStr "verdicts" :: rest =>
+      SList [SStr "verdicts"; SList (map (fun i => SStr (link_verdict h0 h i)) (alias_ids_from h 0))] :: run_ops coll h0 h rest
   | SStr "resolve" :: rest =>
       let '(h', r) := resolve_aliases coll h in
       match r with
       | Err e => [SList [SStr "raise"; enc_err e]; enc_state h']
-      | Ok (u, it) => SList [SStr "resolve"; SList (map SStr u); of_nat it] :: enc_state h' :: run_ops coll h' rest
+      | Ok (u, it) => SList [SStr "resolve"; SList (map SStr u); of_nat it] :: enc_state h' :: run_ops coll h0 h' rest
       end
   | SStr "deref" :: rest =>
       let '(h', outs) := deref_all coll h (alias_ids_from h 0) in
-      SList [SStr "deref"; SList outs] :: enc_state h' :: run_ops coll h' rest
+      SList [SStr "deref"; SList outs] :: enc_state h' :: run_ops coll h0 h' rest
   | SStr "deref-trace" :: rest =>
       let '(h', outs) := deref_trace coll h (alias_ids_from h 0) in
-      SList [SStr "deref-trace"; SList outs] :: enc_state h' :: run_ops coll h' rest
+      SList [SStr "deref-trace"; SList outs] :: enc_state h' :: run_ops coll h0 h' rest
   | _ => [bad_input]
   end.
+
+(* the static walk of every alias of the heap (resolved ones: "linked") *)
+Definition enc_walks (coll : list (string * nat)) (h : heap) : sexp :=
+  SList (map (fun i => match nth_error h i with
+                       | Some (NAlias _ _ (Some _) _ _) => SList [SStr "linked"]
+                       | _ => match walk coll (fuelN h) h i [] with
+                              | Ok _ => SList [SStr "ok"]
+                              | Err e => enc_err e
+                              end
+                       end) (alias_ids_from h 0)).
+
+(* aliases on which a failed resolve_target nevertheless stores links of other aliases (C06_failed_resolution_changes_nothing
+   excludes this on direct heaps with complete chains and unique paths) *)
+Definition count_unres (h : heap) : nat :=
+  List.length (filter (fun n => match n with NAlias _ _ None _ _ => true | _ => false end) h).
+Definition enc_failed_but_changed (coll : list (string * nat)) (h : heap) : sexp :=
+  SList (flat_map (fun i => match nth_error h i with
+                            | Some (NAlias p _ None _ _) =>
+                                let '(h', r) := resolve_top coll h i in
+                                match r with
+                                | Err _ => if Nat.eqb (count_unres h') (count_unres h) then [] else [SStr p]
+                                | Ok _ => []
+                                end
+                            | _ => []
+                            end) (alias_ids_from h 0)).
 
 Definition run_C06 (s : sexp) : sexp :=
   match s with
@@ -554,8 +648,9 @@ Definition run_C06 (s : sexp) : sexp :=
       match as_list_of dec_member c, as_list_of dec_node ns with
       | Some coll, Some h =>
           SList (SList [SStr "class"; of_bool (wf coll h); of_bool (no_passed h); of_bool (direct coll h);
-                        of_bool (chains_complete h); of_bool (unique_paths h); of_bool (targets_complete h)]
-                 :: enc_state h :: run_ops coll h ops)
+                        of_bool (chains_complete h); of_bool (unique_paths h); of_bool (targets_complete h); enc_walks coll h;
+                        enc_failed_but_changed coll h]
+                 :: enc_state h :: run_ops coll h h ops)
       | _, _ => bad_input
       end
   | _ => bad_input
